@@ -129,6 +129,13 @@ def run(tier, seed):
                 cases.append(drive(g, p))
         for g in structured_graphs():
             cases.append(drive(g, range(1, g['n'] + 1)))
+        # catalogue of 7-9 vertex graphs on which min_fill is sub-optimal (inputs only: found by search,
+        # TLC recomputes the treewidth); they are where a pruning bug in an exact method shows
+        hard = json.loads((VERIF / 'data' / 'minfill_suboptimal_graphs.json').read_text())
+        for hg in (hard[:14] if tier == 'quick' else hard):
+            g = {'n': hg['n'], 'adj': hg['adj']}
+            cases.append(drive(g, range(1, g['n'] + 1)))
+        o.extra['hard_catalogue_graphs'] = 14 if tier == 'quick' else len(hard)
         for _ in range(nrand):
             n = rng.randint(7, 9 if tier == 'thorough' else 8)
             dens = rng.choice([0.2, 0.35, 0.5, 0.65])
